@@ -218,6 +218,7 @@ class OrderTaint:
         self.returns = {}
         self.tuple_returns = {}
         self.param_kinds = {}
+        self.param_sources = {}  # (callee, param) -> {id(call): (caller, call, argument, kind)}
         self.attr_kinds = {}
         self.funcs = [f for f in prog.functions.values() if f.module.kind in ("py", "pyx") and (modules is None or f.module.name in modules)]
         self.fk = {}
@@ -245,6 +246,7 @@ class OrderTaint:
                         ak = k.kind(a)
                         if ak:
                             self.param_kinds.setdefault(t.qual, {})[p] = k.join(self.param_kinds.get(t.qual, {}).get(p), ak)
+                            self.param_sources.setdefault((t.qual, p), {})[id(c)] = (fi, c, a, ak)
 
     # -- instances ---------------------------------------------------------------
     def instances(self, fi):
